@@ -21,3 +21,4 @@ void h_close(void) { nni_ws *ws; uint16_t code; VP_HAVOC_GHOSTS(); ws_close(ws, 
 void h_start_read(void) { nni_ws *ws; VP_HAVOC_GHOSTS(); ws_start_read(ws); VP_CANARY(); }
 void h_read_cb(void) { void *arg; VP_HAVOC_GHOSTS(); ws_read_cb(arg); VP_CANARY(); }
 void h_read_frame_cb(void) { nni_ws *ws; ws_frame *f; VP_HAVOC_GHOSTS(); ws_read_frame_cb(ws, f); VP_CANARY(); }
+void h_prep_tx(void) { nni_ws *ws; ws_frame *f; VP_HAVOC_GHOSTS(); ws_frame_prep_tx(ws, f); VP_CANARY(); }
